@@ -5,6 +5,7 @@
 -/
 import Ink.Audit
 import Driver.Play
+import Driver.Expr
 
 open Ink
 
@@ -67,5 +68,6 @@ def main (args : List String) : IO UInt32 := do
   match args with
   | ["play", script] => playCmd script; pure 0
   | ["audit", path] => auditCmd path; pure 0
+  | ["expr", path] => exprCmd path; pure 0
   | ["pathprobe"] => pathProbeLoop (← IO.getStdin) (← IO.getStdout); pure 0
   | _ => IO.eprintln "usage: inkmodel audit <story.json> | pathprobe"; pure 2
